@@ -173,10 +173,11 @@ func runLockDiscipline(c *Ctx, d lockDisc) (nAccess int) {
 
 func ruleR15a(c *Ctx) {
 	const rule = "R15a"
-	mu := c.MustField(rule, pkgCommand, "DefaultLocker", "mu")
+	lm := c.lockModel(rule)
+	mu := lm.mu
 	var guarded []*types.Var
-	for _, n := range []string{"readLocks", "writeLocks", "intents"} {
-		if f := c.MustField(rule, pkgCommand, "DefaultLocker", n); f != nil {
+	for _, f := range []*types.Var{lm.mRead, lm.mWrite, lm.intents} {
+		if f != nil {
 			guarded = append(guarded, f)
 		}
 	}
@@ -218,12 +219,11 @@ func ruleR15a(c *Ctx) {
 // ---- R15b: compatibility matrix ------------------------------------------------------------------
 
 func ruleR15b(c *Ctx, rule string) {
-	tryLock := c.MustFn(rule, pkgCommand, "lockIntent.tryLock")
-	unlock := c.MustFn(rule, pkgCommand, "lockIntent.unlock")
+	lm := c.lockModel(rule)
+	tryLock, unlock := lm.tryLock, lm.unlock
 	fRead := c.MustField(rule, pkgCommand, "Accounts", "Read")
 	fWrite := c.MustField(rule, pkgCommand, "Accounts", "Write")
-	mRead := c.MustField(rule, pkgCommand, "DefaultLocker", "readLocks")
-	mWrite := c.MustField(rule, pkgCommand, "DefaultLocker", "writeLocks")
+	mRead, mWrite := lm.mRead, lm.mWrite
 	if tryLock == nil || unlock == nil || fRead == nil || fWrite == nil || mRead == nil || mWrite == nil {
 		return
 	}
@@ -293,11 +293,13 @@ func ruleR15b(c *Ctx, rule string) {
 		})
 	}
 	addCallees(tryLock, nil, nil, 0)
-	// a helper's `return false` refuses the request only if tryLock returns false when the helper does
-	helperRefuses := func(call *ssa.Call) bool {
+	// which return value of a helper refuses the request: the value v such that tryLock returns false when the helper
+	// called at `call` returns v (`if !l.isAvailable(i) { return false }` → false; `if l.conflicts(i) { return false }` → true)
+	refusingValues := func(call *ssa.Call) map[bool]bool {
 		if call == nil {
-			return true
+			return map[bool]bool{false: true} // tryLock itself: `return false`
 		}
+		out := map[bool]bool{}
 		for _, r := range *call.Referrers() {
 			cond, neg := ssa.Value(call), false
 			if u, ok := r.(*ssa.UnOp); ok && u.Op == token.NOT {
@@ -312,19 +314,21 @@ func ruleR15b(c *Ctx, rule string) {
 			if !ok {
 				continue
 			}
-			// successor taken when the helper returned false
-			si := 1
-			if neg {
-				si = 0
-			}
-			tb := iff.Block().Succs[si]
-			if ret, ok := tb.Instrs[len(tb.Instrs)-1].(*ssa.Return); ok && len(ret.Results) == 1 {
-				if bv, ok := constBool(ret.Results[0]); ok && !bv {
-					return true
+			for si := 0; si < 2; si++ {
+				tb := iff.Block().Succs[si]
+				if ret, ok := tb.Instrs[len(tb.Instrs)-1].(*ssa.Return); ok && len(ret.Results) == 1 {
+					if bv, ok := constBool(ret.Results[0]); ok && !bv {
+						// successor si is taken when cond is (si == 0); the helper's value is cond, or its negation
+						helperVal := si == 0
+						if neg {
+							helperVal = !helperVal
+						}
+						out[helperVal] = true
+					}
 				}
 			}
 		}
-		return false
+		return out
 	}
 	for _, sc := range scopes {
 		for _, b := range sc.fn.Blocks {
@@ -339,15 +343,16 @@ func ruleR15b(c *Ctx, rule string) {
 					if p.acc == "" || p.m == "" || !x.CommaOk {
 						continue
 					}
-					// does the ok result lead to `return false` on its true edge?
+					// does the ok result lead, on its true edge, to the return that refuses the request?
 					rejects := false
+					refusing := refusingValues(sc.call)
 					for _, r := range *x.Referrers() {
 						if e, ok := r.(*ssa.Extract); ok && e.Index == 1 {
 							for _, rr := range *e.Referrers() {
 								if iff, ok := rr.(*ssa.If); ok && iff.Cond == e {
 									tb := iff.Block().Succs[0]
 									if ret, ok := tb.Instrs[len(tb.Instrs)-1].(*ssa.Return); ok && len(ret.Results) == 1 {
-										if bv, ok := constBool(ret.Results[0]); ok && !bv {
+										if bv, ok := constBool(ret.Results[0]); ok && refusing[bv] {
 											rejects = true
 										}
 									}
@@ -355,7 +360,7 @@ func ruleR15b(c *Ctx, rule string) {
 							}
 						}
 					}
-					if rejects && helperRefuses(sc.call) {
+					if rejects {
 						tests[p] = x
 						testBlocks = append(testBlocks, anchor)
 					}
@@ -510,10 +515,8 @@ const (
 )
 
 func ruleR15cd(c *Ctx) {
-	mu := c.MustField("R15c", pkgCommand, "DefaultLocker", "mu")
-	unlockFn := c.MustFn("R15c", pkgCommand, "lockIntent.unlock")
-	tryLockFn := c.MustFn("R15c", pkgCommand, "lockIntent.tryLock")
-	fAcquired := c.MustField("R15d", pkgCommand, "lockIntent", "acquired")
+	lm := c.lockModel("R15c")
+	mu, unlockFn, tryLockFn, fAcquired := lm.mu, lm.unlock, lm.tryLock, lm.acquired
 	if mu == nil || unlockFn == nil || tryLockFn == nil || fAcquired == nil {
 		return
 	}
